@@ -274,6 +274,8 @@ def sched_runs(ctx, S, shard, base, args):
                     one_schedule(ctx, S, sch, [A, B], {k: 1}, base, args)
             else:
                 st = shard["stride"]
+                while (n0 // st + 1) * (n1 // st + 1) > 40000:
+                    st += 1  # keep one pair below ~40k schedules
                 for k1 in range(1, n0 + 1, st):
                     for k2 in range(1, n1 + 1, st):
                         one_schedule(ctx, S, sch, [A, B], {k1: 1, k1 + k2: 0}, base, args)
